@@ -27,12 +27,13 @@ impl Imp {
     fn step(&self, tag: u32, mul: u64, add: u64) -> u64 {
         let s = self.st();
         s.calls = s.calls.wrapping_add(1);
-        s.log = s.log.wrapping_mul(31).wrapping_add(tag);
-        s.x = s.x.wrapping_mul(mul).wrapping_add(add);
-        s.x ^ self.id.wrapping_mul(0x9E37_79B9)
+        // rotate/xor/add only: multipliers make the equivalence check needlessly hard for SAT
+        s.log = s.log.rotate_left(5) ^ tag;
+        s.x = s.x.rotate_left((mul % 61) as u32).wrapping_add(add);
+        s.x ^ self.id.rotate_left(17)
     }
 }
-impl Drop for Imp { fn drop(&mut self) { self.st().dropped += 1; } }
+impl Drop for Imp { fn drop(&mut self) { let s = self.st(); s.dropped = s.dropped.wrapping_add(1); } }
 
 #[cglue_trait]
 pub trait T1 {
